@@ -90,6 +90,7 @@ type tableWorld struct {
 	memberInFlight                       int
 	anyInFlight                          int
 	unit                                 int64
+	alignWake                            chan struct{}
 }
 
 type blindRec struct {
@@ -183,6 +184,8 @@ func (w *tableWorld) drawCfg() {
 		if !c.CfgBool("c07_admin", 1, 2) {
 			g.pauseClose = false
 		}
+		g.admin = true
+		g.slowSub = c.CfgBool("c07_slow_subscriber", 1, 2)
 	case f("C08", "C11"):
 		g.pauseClose = false
 		if f("C11") {
@@ -200,8 +203,12 @@ func (w *tableWorld) drawCfg() {
 	if f("C08", "C11", "C13") {
 		g.midLeave = false
 	}
-	if f("C10", "C13") {
+	if f("C10") {
 		g.atomicCalls = true
+	}
+	if f("C13") {
+		g.atomicCalls = c.CfgBool("c13_atomic", 2, 3)
+		g.rogue = true
 	}
 	if !g.atomicCalls {
 		g.judge = false
@@ -219,6 +226,7 @@ func (w *tableWorld) Run(c *Ctx) {
 	w.c = c
 	w.drawCfg()
 	g := w.cfg
+	w.alignWake = make(chan struct{}, 1)
 	w.adminSt = c.St.Get("admin")
 	w.netSt = c.St.Get("net")
 	w.clients = map[string]*tclient{}
@@ -368,6 +376,9 @@ func (w *tableWorld) Run(c *Ctx) {
 	if g.admin || w.focus("C15") {
 		simrt.Go(0, "extender", w.extenderTask)
 	}
+	if g.admin {
+		simrt.Go(0, "aligned", w.alignedTask)
+	}
 	// horizon
 	for c.NowMs() < g.horizonMs && !c.Stopped() {
 		simrt.Sleep(0, 500*time.Millisecond)
@@ -413,6 +424,12 @@ func (w *tableWorld) hookCallbacks() {
 			}
 			w.seq = c.Seq()
 			w.mon.onSnapshot(snap, w.seq)
+			if snap.State.Status == pt.TableStateStatus_TableGameSettled {
+				select {
+				case w.alignWake <- struct{}{}:
+				default:
+				}
+			}
 			if w.cfg.slowSub && w.inFaultWindow() && w.netSt.Chance(1, 40) {
 				c.Fault("F8_slow_subscriber")
 				slow = int64(1 + w.netSt.Draw(3000))
@@ -800,6 +817,9 @@ func (w *tableWorld) actN(id, action string, amt int64, who string, depth int) e
 		w.mon.markNotAtomic(gc)
 		w.anyInFlight--
 		c.Logf("ACT %s %s %d (%s, interleaved) -> %v", id, action, amt, who, err)
+		if err != nil && err.Error() == errInjected.Error() && who == "client" && depth < 4 {
+			return w.actN(id, action, amt, who, depth+1) // the same action can be submitted again (C13)
+		}
 		return err
 	} else {
 		atomic = simrt.Atomic(func() {
@@ -1195,6 +1215,106 @@ func (w *tableWorld) rogueTask() {
 		amt := int64(st.Draw(200))
 		c.Fault("F2_rogue_action")
 		w.act(id, a, amt, "rogue")
+	}
+}
+
+// ---- aligned interventions (F5 placed where in-flight state exists) ------------------------------
+//
+// Uniformly timed interventions almost never share a simulated instant with the engine's own
+// transitions. This task aims them: at the instant the continue handler runs (settlement +
+// continue interval) and at the instant the open-game gate fires (that + open-game timeout, or the
+// last settlement-finish signal), so that the scheduler can interleave them with tableGameOpen /
+// continueGame statement by statement.
+func (w *tableWorld) alignedTask() {
+	c := w.c
+	g := w.cfg
+	st := c.St.Get("admin.aligned")
+	next := 100
+	for c.NowMs() < g.faultEndMs && !c.Stopped() {
+		select {
+		case <-w.alignWake:
+		case <-time.After(3 * time.Second):
+			continue
+		}
+		base := w.mon.lastSettledMs
+		targets := []int64{base + int64(g.interval)*1000, base + int64(g.interval)*1000 + specOpenGameTimeoutS*1000}
+		tgt := targets[st.Draw(2)]
+		if d := tgt - c.NowMs(); d > 0 {
+			simrt.Sleep(0, time.Duration(d)*time.Millisecond)
+		}
+		if c.NowMs() >= g.faultEndMs || c.Stopped() {
+			return
+		}
+		tb := w.eng.GetTable()
+		if tb == nil || len(tb.State.PlayerStates) == 0 {
+			continue
+		}
+		ids := []string{}
+		for _, p := range tb.State.PlayerStates {
+			ids = append(ids, p.PlayerID)
+		}
+		c.Fault("F5_aligned_intervention")
+		switch st.Pick(25, 25, 15, 15, 10, 10) {
+		case 0:
+			if g.topups {
+				w.doRedeem(ids[st.Draw(len(ids))], int64(1+st.Draw(int(w.unit)*10+1)))
+			}
+		case 1:
+			if g.lateJoin && next < 106 {
+				id := fmt.Sprintf("n%d", next)
+				next++
+				cl := w.newClient(id)
+				simrt.Go(0, "client."+id, func() { w.clientLoop(cl) })
+				if w.doReserve("aligned", pt.JoinPlayer{PlayerID: id, RedeemChips: int64(1 + st.Draw(int(w.unit)*40+1)), Seat: -1}, false) == nil {
+					w.doJoin("aligned", id)
+				} else {
+					cl.gone = true
+				}
+			}
+		case 2:
+			if g.leaves {
+				id := ids[st.Draw(len(ids))]
+				if indexOf(rosterOf(tb), id) < 0 {
+					w.doLeave([]string{id})
+				}
+			}
+		case 3:
+			if g.blindOps {
+				nb := w.blind
+				nb.level++
+				nb.bb += int64(1 + st.Draw(9))
+				w.mon.blindInvoke(nb)
+				w.eng.UpdateBlind(nb.level, nb.ante, nb.dealer, nb.sb, nb.bb)
+				w.blind = nb
+				w.mon.blindReturn(nb)
+				c.Logf("UPDATEBLIND %+v (aligned)", nb)
+			}
+		case 4:
+			if g.pauseClose && st.Chance(1, 2) {
+				c.Fault("F5_close")
+				w.mon.adminEvent("close")
+				w.eng.CloseTable()
+				w.closedAtMs = c.NowMs()
+				c.Logf("CLOSE (aligned)")
+				return
+			}
+		case 5:
+			// the competition service repeats its set-up call for the coming hand
+			if tb.State.GameState == nil && tb.State.StartAt != -1 && w.focus("C07", "C09", "") {
+				parts := map[string]int{}
+				for _, p := range tb.State.PlayerStates {
+					if p.Bankroll > 0 && p.IsIn {
+						parts[p.PlayerID] = len(parts)
+					}
+				}
+				if len(parts) >= 2 {
+					c.Fault("F5_repeated_setup")
+					w.mon.externalSetup()
+					c.Logf("SETUP repeated gc=%d parts=%d", tb.State.GameCount+1, len(parts))
+					w.eng.SetUpTableGame(tb.State.GameCount+1, parts)
+				}
+			}
+		}
 	}
 }
 
